@@ -23,13 +23,14 @@ import (
 )
 
 type result struct {
-	H1    *obs       `json:"h1,omitempty"`
-	H2    *h2obs     `json:"h2,omitempty"`
-	Retry *retryObs  `json:"retry,omitempty"`
-	H3    *h3obs     `json:"h3,omitempty"`
-	Queue *queueObs  `json:"queue,omitempty"`
-	Win   *windowObs `json:"window,omitempty"`
-	Share *shareObs  `json:"share,omitempty"`
+	H1      *obs        `json:"h1,omitempty"`
+	H2      *h2obs      `json:"h2,omitempty"`
+	Retry   *retryObs   `json:"retry,omitempty"`
+	H3      *h3obs      `json:"h3,omitempty"`
+	Queue   *queueObs   `json:"queue,omitempty"`
+	Win     *windowObs  `json:"window,omitempty"`
+	Share   *shareObs   `json:"share,omitempty"`
+	Backoff *backoffObs `json:"backoff,omitempty"`
 }
 
 type job struct {
@@ -49,6 +50,7 @@ var h1specs = []h1spec{
 	{Name: "fresh-get-hdrtimeout", HdrTimeout: true},
 	{Name: "queued-maxconns-get", Queued: true},
 	{Name: "fresh-upload-expect-continue", Upload: true, Expect: true},
+	{Name: "tls-handshake-never-answered", TLS: true, HSTimeout: true},
 }
 
 var h2specs = []h2spec{
@@ -98,6 +100,7 @@ func allJobs() []job {
 	add("queue", 2)
 	add("window", 1)
 	add("share", 2)
+	add("backoff", 2)
 	return js
 }
 
@@ -130,7 +133,7 @@ func runJob(j job, seed uint64, quick bool) (out []result) {
 		steps := h1steps(sp)
 		n := len(steps)
 		add := func(o obs) { out = append(out, result{H1: &o}) }
-		add(runH1(sp, "none", n, false, quick))
+		add(runH1(sp, "none", n, false, quick)) // HSTimeout: the dial's own timeout fails the call
 		for pos := 0; pos <= n; pos++ {
 			for _, k := range kindsAt(pos, seed, quick) {
 				if sp.Queued && k == "client-timeout" {
@@ -252,6 +255,16 @@ func runJob(j job, seed uint64, quick bool) (out []result) {
 			sp.Follow = 60000
 			o := runWindow(sp)
 			out = append(out, result{Win: &o})
+		}
+	case "backoff":
+		kind := []string{"cancel", "deadline"}[j.Idx]
+		ns := []int{1, 2, 4} // in flight after the immediate re-send; in the 1 s back-off; in the 4 s back-off (bound 2 s)
+		if !quick {
+			ns = []int{1, 2, 3, 4, 5}
+		}
+		for _, n := range ns {
+			o := runBackoff(backoffSpec{Name: fmt.Sprintf("%d-refusals", n), Refusals: n, Kind: kind})
+			out = append(out, result{Backoff: &o})
 		}
 	case "share":
 		stack := []string{"h2", "h3"}[j.Idx]
@@ -415,6 +428,8 @@ func runC08(r *hk.Run) {
 				recordWindow(r, *x.Win)
 			case x.Share != nil:
 				recordShare(r, *x.Share)
+			case x.Backoff != nil:
+				recordBackoff(r, *x.Backoff)
 			}
 		}
 	}
